@@ -188,6 +188,19 @@ func init() {
 			}
 			res := g.do("render " + w)
 			viol := oracleHTML(g, t, w, res)
+			if r.chance(1, 2) { // same wrapper, a different generator (or none, or a first one), rendered again
+				args2 := " id=" + hx(g.x.wrappers[idOf(w)].html.id) + " cls=" + hx(g.x.wrappers[idOf(w)].html.cls) + " cap=" + hx(g.x.wrappers[idOf(w)].html.cap)
+				if r.chance(3, 4) {
+					var l []string
+					for n := 0; n <= g.x.tables[idOf(t)].NRows(); n++ {
+						l = append(l, fmt.Sprintf("%d:%s", n, hx("second"+r.text(alphaHTML, 1))))
+					}
+					args2 += " rc=" + joinC(l)
+				}
+				g.do("sethtml " + w + args2)
+				res = g.do("render " + w)
+				viol = append(viol, oracleHTML(g, t, w, res)...)
+			}
 			if r.chance(1, 3) { // same wrapper rendered again after changing the caption
 				g.do("sethtml " + w + " cap=" + hx(r.text(alphaHTML, 3)))
 				res = g.do("render " + w)
